@@ -24,6 +24,8 @@ def setup(scratch):
     import breezy.bzr  # noqa
     import breezy.git  # noqa
     from breezy import controldir
+    import logging
+    logging.getLogger("brz").setLevel(logging.ERROR)      # "skipping nested tree ..." warnings
     os.environ.setdefault("BRZ_EMAIL", "verif <verif@example.com>")
     _st["dir"] = scratch
     _st["n"] = 0
